@@ -126,21 +126,11 @@ theorem C13_family_safe_float (parse : Bytes → Option Rat) (o : Obj) : ∃ v, 
   rename_i s
   cases parse s <;> simp
 
-/-- The full statement for `safe_rect_list`: it never raises. -/
-def C13_safe_rect_list_statement : Prop :=
-  ∀ (parse : Bytes → Option Rat) (o : Obj), ∃ v, safeRectList parse o = .ok v
-
-/-- It does not hold: a stream value (e.g. `/FontBBox 14 0 R` pointing at a stream) makes
-`itertools.islice` go through `PDFStream.__getitem__(0)`, which raises KeyError.  Replayed on the
-implementation by the harness (open finding `KeyError-model_safe_rect_list-graph`). -/
-theorem C13_safe_rect_list_cex : ¬ C13_safe_rect_list_statement := by
-  intro h
-  obtain ⟨v, hv⟩ := h (fun _ => none) (.stream [] [])
-  simp [safeRectList, safeConv, pyIter4, Gen.Lenient.safeRectListCatch, Internal.pyName, bind, Except.bind] at hv
-
-/-- Partial: for every value that is not a stream `safe_rect_list` never raises. -/
-theorem C13_family_safe_rect_list_partial (parse : Bytes → Option Rat) (o : Obj)
-    (hns : ∀ kvs d, o ≠ .stream kvs d) : ∃ v, safeRectList parse o = .ok v := by
+/-- `safe_rect_list` never raises, for every value — arrays of anything, strings, dictionaries, scalars and
+streams (a PDFStream is "iterable" through `__getitem__`, which raises KeyError: the regenerated `except`
+clause now lists it; in the first round this was a proved counter-example and an open finding). -/
+theorem C13_family_safe_rect_list (parse : Bytes → Option Rat) (o : Obj) :
+    ∃ v, safeRectList parse o = .ok v := by
   have hm : ∀ (vs : List Obj), ∃ fs, vs.mapM (safeFloat parse) = .ok fs := by
     intro vs
     induction vs with
@@ -165,7 +155,6 @@ theorem C13_family_safe_rect_list_partial (parse : Bytes → Option Rat) (o : Ob
       · exact ⟨none, by simp [ha, pure, Except.pure]⟩
   unfold safeRectList safeConv
   cases o with
-  | stream kvs d => exact absurd rfl (hns kvs d)
   | arr xs => simpa [pyIter4, bind, Except.bind] using fin (xs.take 4)
   | str s => simpa [pyIter4, bind, Except.bind] using fin ((s.take 4).map (fun b => Obj.int b.toNat))
   | dict kvs => simpa [pyIter4, bind, Except.bind] using fin ((kvs.take 4).map (fun kv => Obj.name kv.1))
@@ -199,6 +188,40 @@ example : readXref false [] [(100, ⟨none, some (.int 200)⟩), (200, ⟨some (
     = .ok [100, 200] := by rfl
 example : readXref false [] [(100, ⟨none, some (.int (-1))⟩)] 100 = .error .pdfNoValidXRef := by rfl
 
+/-! ## resolve_all -/
+
+/-- Bound on the recursion DEPTH of `resolve_all` (Python stack frames) for every object graph and value:
+each object can be entered at most once on a path (path guard) and is then walked through its nesting, so
+`(objects + 1) · (deepest nesting + 2) + nesting of the value + 2` levels always suffice — reference cycles,
+Parent back-pointers and shared sub-objects included. -/
+theorem C13_fuel_resolve_all (strict : Bool) (g : Graph) (x : Obj) :
+    resolveAllFuel strict g (resolveAllBudget g x) [] x ≠ .error .fuel := by
+  intro h
+  have hu := unvisited_le g []
+  have hm : raMeasure g [] x ≤ resolveAllBudget g x := by
+    unfold raMeasure resolveAllBudget
+    have : unvisited g [] * (graphDepth g + 1) ≤ (g.length + 1) * (graphDepth g + 2) :=
+      Nat.mul_le_mul (by omega) (by omega)
+    omega
+  have := resolveAll_good C13_guards_present.2.1 strict g _ [] x hm _ h
+  cases this
+
+/-- `resolve_all` returns the fully resolved value or the STRICT-mode circular-reference error. -/
+theorem C13_family_resolve_all (strict : Bool) (g : Graph) (x : Obj) : Allowed (resolveAll strict g x) := by
+  unfold resolveAll
+  have hu := unvisited_le g []
+  have hm : raMeasure g [] x ≤ resolveAllBudget g x := by
+    unfold raMeasure resolveAllBudget
+    have : unvisited g [] * (graphDepth g + 1) ≤ (g.length + 1) * (graphDepth g + 2) :=
+      Nat.mul_le_mul (by omega) (by omega)
+    omega
+  cases hr : resolveAllFuel strict g (resolveAllBudget g x) [] x with
+  | ok v => trivial
+  | error e =>
+    have := resolveAll_good C13_guards_present.2.1 strict g _ [] x hm e hr
+    subst this
+    exact isFamily_pdfValueError
+
 /-! ## page-tree walk (`PDFPage.create_pages.depth_first_search`) -/
 
 /-- Termination for EVERY object graph — Kids cycles, a node listed twice, Parent used as a kid, missing
@@ -229,21 +252,30 @@ theorem C13_family_pagetree (strict : Bool) (g : Graph) (catalog : List (String 
       exact hgood.1 e hr
     | ok r => simp [hr, Allowed, bind, Except.bind, pure, Except.pure]
 
-/-! ## get_widths: total on ill-typed arrays, but its work is NOT bounded by the input size -/
+/-! ## get_widths on ill-typed W arrays -/
 
-/-- The full statement for `get_widths`: the number of dictionary entries it materialises is bounded by a
-constant times the length of the W array. -/
-def C13_get_widths_work_statement : Prop :=
-  ∃ c : Nat, ∀ (g : Graph) (seq : List Obj) (ws : List WEntry),
-    getWidths false g seq = .ok ws → widthsWork ws ≤ c * (seq.length + 1)
+/-- `get_widths` returns a value or propagates `resolve1`'s STRICT-mode family error, for every array and
+every object graph. -/
+theorem C13_family_get_widths (strict : Bool) (g : Graph) (seq : List Obj) :
+    Allowed (getWidths strict g seq) :=
+  (getWidthsLoop_spec C13_guards_present.1 strict g seq []).1
 
-/-- It does not hold: `/W [0 N 500]` makes the loop `for i in range(0, N + 1)` run N + 1 times for a
-three-element array (open finding `budget-replace`, replayed on the implementation by the harness). -/
-theorem C13_get_widths_work_cex : ¬ C13_get_widths_work_statement := by
-  intro ⟨c, h⟩
-  have := h [] [.int 0, .int (4 * c + 1), .int 500] [.range 0 (4 * c + 1) (.int 500)] (by
-    simp [getWidths, getWidthsLoop, resolve1, resolve1Fuel, isNumber, isInt, intOf, bind, Except.bind, pure, Except.pure])
-  simp [widthsWork] at this
+/-- Bounded work: the number of dictionary entries `get_widths` materialises is at most `MAX_CID + 1`
+(regenerated from pdffont.py; 65536) per element of the W array plus the lengths of the `c [w …]` arrays
+it copies — whatever the numbers in the array are.  (In the pinned code `/W [0 N 500]` cost N + 1 steps:
+that counter-example was proved in the first round and is now fixed in the repo.) -/
+theorem C13_fuel_get_widths (strict : Bool) (g : Graph) (seq : List Obj) (ws : List WEntry)
+    (h : getWidths strict g seq = .ok ws) :
+    widthsWork ws ≤ 65536 * seq.length + runTotal ws := by
+  have hs := (getWidthsLoop_spec C13_guards_present.1 strict g seq []).2 ws h
+  have hw := widthsWork_le ws hs.2
+  have hm : (Gen.Lenient.maxCid + 1).toNat = 65536 := by decide
+  rw [hm] at hw
+  have : 65536 * ws.length ≤ 65536 * seq.length := Nat.mul_le_mul_left _ hs.1
   omega
+
+/-- Non-vacuity: a range far beyond the CID range is clamped, a run is copied. -/
+example : (getWidths false [] [.int 0, .int 1000000000000, .int 500, .int 7, .arr [.int 1, .int 2]]).map widthsWork
+    = .ok 65538 := by rfl
 
 end PdfVerif.Props.C13
